@@ -9,7 +9,7 @@ const ALPHABET: [f64; 5] = [0.0, 1.0, -2.0, 1001.0, 1e-3];
 fn main() {
     std::panic::set_hook(Box::new(|_| {}));
     let mut hangs = 0;
-    for (n, p) in [(1usize, 1usize), (2, 1), (3, 1), (4, 1), (1, 2), (2, 2), (3, 2), (1, 3), (2, 3)] {
+    for (n, p) in [(2usize, 3usize), (4, 2), (3, 3)] {
         let total = 5u64.pow((n * p) as u32);
         for idx in 0..total {
             let mut m = vec![0.0; n * p];
